@@ -51,14 +51,14 @@ func init() {
 				for _, pfx := range []string{"", "st"} {
 					for s := 0; s < tierPick(tier, 1, 6); s++ {
 						bs = append(bs, core.Batch{Name: fmt.Sprintf("history-%d-%d", i, s), TimeoutS: 600,
-							Params: core.Params(idxParams{Kind: "history", Typed: typed, Prefix: pfx, Histories: tierPick(tier, 15, 80), Shard: s})})
+							Params: core.Params(idxParams{Kind: "history", Typed: typed, Prefix: pfx, Histories: tierPick(tier, 15, 300), Shard: s})})
 					}
 					i++
 				}
 			}
 			for s := 0; s < tierPick(tier, 2, 8); s++ {
 				bs = append(bs, core.Batch{Name: fmt.Sprintf("flush-%d", s), TimeoutS: 600,
-					Params: core.Params(idxParams{Kind: "flush", Typed: s%2 == 0, Prefix: []string{"", "f"}[s%2], Histories: tierPick(tier, 15, 60), Shard: s})})
+					Params: core.Params(idxParams{Kind: "flush", Typed: s%2 == 0, Prefix: []string{"", "f"}[s%2], Histories: tierPick(tier, 15, 200), Shard: s})})
 			}
 			bs = append(bs, core.Batch{Name: "concurrent-race", TimeoutS: 900, Race: true,
 				Params: core.Params(idxParams{Kind: "concurrent", Typed: true, Prefix: "c", Histories: tierPick(tier, 4, 20)})})
